@@ -145,7 +145,7 @@ def gen_row_text(r, room, rich):
     if k == 0 or x < 0.45 or not rich:
       n = r.randint(1, min(left, 7))
       chars = gen_chars(r, n)
-      if k == 0 and chars[0] == 0x20 and r.random() < 0.7:
+      if k == 0 and chars[0] == 0x20 and r.random() < 0.4:
         chars[0] = r.choice(LETTERS)
       units.append(("t", chars))
       used += n
@@ -1280,6 +1280,19 @@ def directed_streams():
   out.append(_scc((300, [C_("RCL"), P_(15)] + _t("AB") + [w_midrow(1, False), w_midrow(7, False)] + _t("CD") + [C_("EOC")]), (400, [C_("EDM")])))
   out.append(_scc((300, [C_("RCL"), C_("RCL"), P_(15), P_(15)] + _t("AB") + [w_midrow(1, False)] * 2 + [w_midrow(7, False)] * 2 + _t("CD") + [C_("EOC"), C_("EOC")]),
                   (400, [C_("EDM"), C_("EDM")])))
+  # data of channel 2 that CONTINUES on the next SCC line (the channel in force does not change at a line boundary): pop-on, roll-up, paint-on
+  ch2 = lambda w: (w[0] | 0x08, w[1])      # noqa: E731  the channel-2 twin of a channel-1 control word
+  out.append(_scc((300, [C_("RCL"), C_("ENM"), P_(14)] + _t("HELLO") + [C_("EOC")]), (400, [ch2(C_("RCL")), ch2(P_(15))] + _t("SEGUNDO ")),
+                  (430, _t("CANAL") + [ch2(C_("EOC"))]), (500, [C_("RCL"), C_("ENM"), P_(15)] + _t("WORLD") + [C_("EOC")]), (600, [C_("RCL"), C_("ENM"), C_("EOC")])))
+  out.append(_scc((300, [C_("RU2"), C_("CR"), P_(15)] + _t("ONE")), (400, [ch2(C_("RU2")), ch2(C_("CR"))] + _t("DOS")), (430, _t("TRES")),
+                  (500, [C_("CR")] + _t("TWO"))))
+  out.append(_scc((300, [C_("RDC"), P_(14)] + _t("AB")), (400, [ch2(C_("RDC")), ch2(P_(15))] + _t("XX")), (430, _t("YY") + [ch2(C_("EDM"))]),
+                  (500, [C_("RDC"), P_(15)] + _t("CD"))))
+  # a row that ENDS with a mid-row code (underline, italics, colour): the code occupies a cell, the row is content like any other
+  for mid in (w_midrow(0, True), w_midrow(7, False), w_midrow(1, True)):
+    out.append(_scc((300, [C_("RU2"), C_("CR"), P_(15)] + _t("AB") + [mid]), (400, [C_("CR")] + _t("CD")), (500, [C_("CR")] + _t("EF"))))
+    out.append(_scc((300, [C_("RCL"), C_("ENM"), P_(14)] + _t("AB") + [mid, P_(15)] + _t("CD") + [C_("EOC")]), (400, [C_("RCL"), C_("ENM"), C_("EOC")])))
+    out.append(_scc((300, [C_("RDC"), P_(14)] + _t("AB") + [mid]), (400, [C_("RDC"), P_(15)] + _t("CD"))))
   # a tab offset after text on the same row leaves a gap of transparent cells (pop-on, paint-on, roll-up)
   out.append(_scc((300, [C_("RCL"), C_("ENM"), P_(14)] + _t("AB") + [C_("TO2")] + _t("CD") + [C_("EOC")]), (400, [C_("RCL"), C_("ENM"), C_("EOC")])))
   out.append(_scc((300, [C_("RDC"), P_(14)] + _t("AB") + [C_("TO1")] + _t("CD")), (400, [C_("RDC"), P_(15)] + _t("EF") + [C_("TO3")] + _t("GH"))))
@@ -1297,6 +1310,37 @@ def directed_streams():
         txt += [f"{h:02d}:{m:02d}:{s_:02d}{sep}{f:02d}\t{words}", ""]
       out.append("\n".join(txt) + "\n")
   return out
+
+
+C_ALIGN = "the text_align configuration changes alignment only: same paragraphs, times and characters (leading spaces included) as without it"
+
+
+def raw_paragraphs(text, cfg_name):
+  """(begin, end, exact text with one LF per br) of every paragraph, in document order"""
+  import ttconv.model as m
+  from ttconv.scc.reader import to_model
+  doc = to_model(text, config_of(cfg_name))
+  out = []
+  for p in doc.get_body().dfs_iterator():
+    if isinstance(p, m.P):
+      out.append((p.get_begin(), p.get_end(), "".join(e.get_text() if isinstance(e, m.Text) else ("\n" if isinstance(e, m.Br) else "")
+                                                       for e in p.dfs_iterator())))
+  return out
+
+
+def evaluate_alignment(text, cfg_name):
+  """metamorphic contract over the configuration: -> None | (key, contract, summary, observed, required)"""
+  try:
+    base, other = raw_paragraphs(text, None), raw_paragraphs(text, cfg_name)
+  except Exception:  # pylint: disable=broad-except
+    return None        # reported by the other contracts
+  if base == other:
+    return None
+  k = next((i for i in range(min(len(base), len(other))) if base[i] != other[i]), min(len(base), len(other)))
+  a, b = (base[k] if k < len(base) else None), (other[k] if k < len(other) else None)
+  what = "text" if (a and b and a[:2] == b[:2]) else "paragraphs"
+  return (f"text-align-changes-content:{what}", C_ALIGN,
+          f"paragraph {k} is {b!r} with text_align={cfg_name} and {a!r} without a configuration", repr(b), repr(a))
 
 
 def run_chunk(job):
@@ -1319,6 +1363,11 @@ def run_chunk(job):
     for (key, contract, summary, observed, required) in fails:
       rec.fail(key, contract, summary, {"scc": text, "config": cfg, "family": family}, observed, required, REPLAYER,
                {"scc": text, "config": cfg})
+    if cfg is not None:
+      rec.evaluated(C_ALIGN, fp, None, nontrivial=info["changes"] > 0)
+      f = evaluate_alignment(text, cfg)
+      if f is not None:
+        rec.fail(f[0], f[1], f[2], {"scc": text, "config": cfg, "family": family}, f[3], f[4], "replayers.c08:alignment", {"scc": text, "config": cfg})
     if family == "pop":
       text2 = doubled_variant(seed, family, idx)
       if text2 is not None:
